@@ -119,6 +119,7 @@ pub struct SimConsole {
     /// spin guard: service-level reads at end of input since the last instruction
     eof_service_reads: u32,
     short_handle_writes: u32,
+    partial: (Origin, Vec<u8>),
     /// what the last fill_buf offered (consume takes a prefix of it)
     last_fill: Vec<u8>,
     /// bytes consumed through fill_buf/consume that do not yet make up a whole line, per caller
@@ -158,6 +159,7 @@ impl SimConsole {
             recs_since_progress: 0,
             eof_service_reads: 0,
             short_handle_writes: 0,
+            partial: (Origin::Main, Vec::new()),
             last_fill: Vec::new(),
             pending: [Vec::new(), Vec::new()],
         }
@@ -165,6 +167,13 @@ impl SimConsole {
 
     fn push(&self, e: Event) {
         self.sh.borrow_mut().events.push(e);
+    }
+    /// the incomplete tail of a handle-level write that nothing has completed: shown as it is
+    fn drain_partial(&mut self) {
+        if !self.partial.1.is_empty() {
+            let (origin, bytes) = std::mem::replace(&mut self.partial, (Origin::Main, Vec::new()));
+            self.push(Event::Rec { origin, line: 0, text: String::from_utf8_lossy(&bytes).into_owned(), err: false });
+        }
     }
 }
 
@@ -196,6 +205,7 @@ pub fn regs_of(vm: &VM) -> [u16; 14] {
 
 impl Console for SimConsole {
     fn emit(&mut self, module: &'static str, line: u32, text: &str) {
+        self.drain_partial();
         let origin = if module == "main_stub" { Origin::Main } else { origin_of(module) };
         // one print statement may legitimately dump the whole 1 MiB (1 048 576 byte records, a
         // separator record every 8 bytes and a row end every 16: 1 245 184 records); more output
@@ -242,8 +252,21 @@ impl Console for SimConsole {
         if taken < bytes.len() {
             self.short_handle_writes += 1;
         }
+        // a short count may cut inside a character: the incomplete tail waits for the next write
+        // (records hold text; the bytes must come out exactly as the descriptor saw them)
+        let mut data = std::mem::take(&mut self.partial.1);
+        data.extend_from_slice(&bytes[..taken]);
+        let (shown, rest) = match std::str::from_utf8(&data) {
+            Ok(t) => (t.to_owned(), Vec::new()),
+            Err(e) if e.error_len().is_none() => {
+                let v = e.valid_up_to();
+                (String::from_utf8_lossy(&data[..v]).into_owned(), data[v..].to_vec())
+            }
+            Err(_) => (String::from_utf8_lossy(&data).into_owned(), Vec::new()),
+        };
+        self.partial = (origin, rest);
         if let Some(Event::Rec { text, .. }) = self.sh.borrow_mut().events.get_mut(at) {
-            *text = String::from_utf8_lossy(&bytes[..taken]).into_owned();
+            *text = shown;
         }
         r
     }
@@ -258,6 +281,7 @@ impl Console for SimConsole {
     }
 
     fn flush(&mut self) -> io::Result<()> {
+        self.drain_partial();
         self.push(Event::Flush);
         self.wr.flush()
     }
